@@ -130,7 +130,9 @@ class Unit:
         a = node.args
         for p in (a.posonlyargs + a.args + a.kwonlyargs if self.stmt is None else []):
             if not b.st.has(p.arg):
-                raise Unsupported(f'{self.name}: parameter {p.arg} not bound by sidecar')
+                # a parameter the sidecar does not know (added by a change): it may hold anything
+                from .interp import Unknown
+                b.bind(p.arg, Unknown(f'param:{p.arg}'))
         req_sat = solve.satisfiable(b.st.pc)
         if req_sat == z3.unsat:
             raise VacuityError(f'{self.name}: contradictory requires')
